@@ -6,6 +6,7 @@ mod gen;
 mod histrec;
 mod ops;
 mod project;
+mod recalc;
 mod reentry;
 mod valuecheck;
 mod structural;
@@ -73,6 +74,7 @@ fn main() {
         "reentryvocab" => reentry::vocab_size(),
         "reentry" => reentry::run(&gets(&m, "in", ""), &gets(&m, "out", "/tmp/icverif"), &gets(&m, "pairs", "en/en")),
         "frames" => frames::run(&gets(&m, "out", "/tmp/icverif"), geti(&m, "seed", 1) as u64, geti(&m, "runs", 10) as usize, geti(&m, "steps", 25) as usize),
+        "recalc" => recalc::run(&gets(&m, "in", ""), &gets(&m, "out", "/tmp/icverif"), geti(&m, "n", 4)),
         "value" => valuecheck::run(&gets(&m, "in", ""), &gets(&m, "out", "/tmp/icverif")),
         "xlsxrt1" => xlsxrt::replay_one(&gets(&m, "in", "")),
         "xlsxrt" => xlsxrt::run(&gets(&m, "out", "/tmp/icverif"), geti(&m, "seed", 1) as u64, geti(&m, "runs", 10) as usize, geti(&m, "steps", 40) as usize, geti(&m, "every", 8) as usize),
